@@ -169,6 +169,16 @@ pub fn apply_pattern(pattern: &str, offset: usize, data: &mut Vec<u8>) -> bool {
                 }
             }
         }
+        "poison" => {
+            // overwrite the first whole `arg`-byte record of the chunk with bytes that do not decode (harness message type)
+            let w = arg.max(1);
+            if data.len() < w {
+                return false;
+            }
+            for b in &mut data[..w] {
+                *b = crate::verif::msg::POISON;
+            }
+        }
         "suble" => {
             // -1 on the little-endian field of `arg` bytes that contains `offset`
             let w = arg.max(1);
